@@ -712,6 +712,16 @@ import re
 
 # ------------------------------------------------------------------------------------------------ C10
 C10_SUPPORT = r'''
+/// decoy trait, implemented for everything: `&self` methods named like the methods generated code might call with method syntax
+pub trait Hijack {
+    fn field(&self, _n: &str, _v: &dyn core::fmt::Debug) -> &Self { self }
+    fn finish(&self) -> core::fmt::Result { Ok(()) }
+    fn finish_non_exhaustive(&self) -> core::fmt::Result { Ok(()) }
+    fn entry(&self, _v: &dyn core::fmt::Debug) -> &Self { self }
+    fn pad(&self, _s: &str) -> core::fmt::Result { Ok(()) }
+    fn write_str(&self, _s: &str) -> core::fmt::Result { Ok(()) }
+}
+impl<T: ?Sized> Hijack for T {}
 impl Mk for i32 { fn mk<S: Src>(s: &mut S) -> Self { i32::from_le_bytes([s.u8(), s.u8(), s.u8(), s.u8()]) >> (s.u8() % 32) } }
 impl Mk for f32 { fn mk<S: Src>(s: &mut S) -> Self { [0.0f32, -0.0, 1.5, -2.25, 1e10, 3.14159, f32::NAN, f32::INFINITY, 0.1][(s.u8() % 9) as usize] } }
 impl Mk for &'static str { fn mk<S: Src>(s: &mut S) -> Self { ["", "a", "hello world", "q\"uote\n"][(s.u8() % 4) as usize] } }
@@ -776,8 +786,10 @@ def c10_prog(name, rng, entry, first_name=None):
         v = vs[0]
         return "pub struct X%s%s%s" % (gg, body(v, "pub ", twin), "" if v[1] == "named" else ";")
     head = "#[derive_ex::derive_ex(Debug)]\n" if entry == "attr" else "#[derive(derive_ex::Ex)]\n#[derive_ex(Debug)]\n"
-    td = head + item(False) + "\n"
-    twin = "pub mod twin {\n    use crate::support::*;\n    #[derive(Debug)]\n    %s\n}\n" % item(True)
+    # the item lives in a module where a blanket-implemented trait with `&self` methods named like the builder methods is in scope
+    # (method-call syntax on a by-value receiver would pick them before the inherent `&mut self` methods); the twin sees it too
+    td = "pub mod def {\n    #[allow(unused_imports)] use crate::support::*;\n    #[allow(unused_imports)] use crate::support::Hijack as _;\n    " + head.replace("\n", "\n    ") + item(False) + "\n}\npub use def::X;\n"
+    twin = "pub mod twin {\n    use crate::support::*;\n    #[allow(unused_imports)] use crate::support::Hijack as _;\n    #[derive(Debug)]\n    %s\n}\n" % item(True)
     def ctor(v, prefix, twin_):
         vn, kind, fs, tr = v
         path = (prefix + "X::" + vn) if is_enum else (prefix + "X")
